@@ -235,6 +235,54 @@ def closed_loop(ck, rng, n_states):
             if re_ > 1e-9:
                 ck.violation({"fn": "quick_dual_body_tidal_dissipation", "clause": "energy", "e": str(e)},
                              "dual energy balance residual %.3g at %s" % (re_, det), det)
+    # evolution-loop pattern: the caller keeps ONE array per quantity, updates it in place between calls and hands the same objects
+    # back; every call must equal the scalar calculation at the arrays' current contents (no result may depend on array identity)
+    for t in range(3 if n_states <= 20 else 12):
+        Rr = 10 ** rng.uniform(5.8, 7)
+        rho = rng.uniform(1500, 6000)
+        m = 4 / 3 * math.pi * Rr ** 3 * rho
+        g = G * m / Rr ** 2
+        moi = 0.35 * m * Rr ** 2
+        M = 10 ** rng.uniform(24, 30)
+        n_arr = np.array([10 ** rng.uniform(-6, -4), 10 ** rng.uniform(-6, -4)])
+        e_arr = np.array([rng.uniform(0.02, 0.3), rng.uniform(0.02, 0.3)])
+        s_arr = n_arr * np.array([1.5, 2.3])
+        rheo = rng.choice(["maxwell", "cpl", "ctl"])
+        kw = dict(viscosity=10 ** rng.uniform(15, 21), shear_modulus=10 ** rng.uniform(9.5, 11), rheology=rheo, max_tidal_order_l=2,
+                  eccentricity_truncation_lvl=6, fixed_q=50.0, fixed_k2=0.3, fixed_dt=100.0, calculate_orbit_spin_derivatives=True)
+        keys = ("tidal_heating", "dUdM", "dUdw", "dUdO", "semi_major_axis", "semi_major_axis_derivative", "eccentricity_derivative", "spin_rate_derivative")
+        R2 = 10 ** rng.uniform(6.5, 7.5)
+        M2 = 4 / 3 * math.pi * R2 ** 3 * 3000.0
+        for step in range(3):
+            det = {"R": Rr, "rho": rho, "M_host": M, "n": n_arr.tolist(), "spin": s_arr.tolist(), "e": e_arr.tolist(), "rheology": rheo, "call": step + 1}
+            ck.case(("inplace-loop", t, step), True)
+            res = quick_tidal_dissipation(M, Rr, m, g, rho, moi, eccentricity=e_arr, orbital_frequency=n_arr, spin_frequency=s_arr, **kw)
+            for idx in range(2):
+                rs = quick_tidal_dissipation(M, Rr, m, g, rho, moi, eccentricity=float(e_arr[idx]), orbital_frequency=float(n_arr[idx]), spin_frequency=float(s_arr[idx]), **kw)
+                for key in keys:
+                    va = float((np.asarray(res[key]) * np.ones(2)).ravel()[idx])
+                    vs = float(np.asarray(rs[key]).ravel()[0])
+                    if not (va == vs or abs(va - vs) <= 1e-11 * max(abs(va), abs(vs))):
+                        ck.violation({"fn": "quick_tidal_dissipation", "clause": "inplace_reuse", "what": key},
+                                     "call %d with the same arrays updated in place: element %d %s = %r, scalar calculation at the current values gives %r: %s" % (step + 1, idx, key, va, vs, det), det)
+                        break
+            if t % 2 == 0:
+                dual = lambda ee, nn, ss: quick_dual_body_tidal_dissipation((R2, Rr), (M2, m), (G * M2 / R2 ** 2, g), (3000.0, rho), (0.3 * M2 * R2 ** 2, moi),
+                                                                            viscosities=(1e18, kw["viscosity"]), shear_moduli=(5e10, kw["shear_modulus"]), rheologies=("maxwell", "maxwell"),
+                                                                            spin_frequencies=(ss, ss), eccentricity=ee, orbital_frequency=nn, max_tidal_order_l=2, eccentricity_truncation_lvl=6)
+                rd = dual(e_arr, n_arr, s_arr)
+                for idx in range(2):
+                    rs = dual(float(e_arr[idx]), float(n_arr[idx]), float(s_arr[idx]))
+                    for key in ("semi_major_axis_derivative", "eccentricity_derivative"):
+                        va = float((np.asarray(rd[key]) * np.ones(2)).ravel()[idx])
+                        vs = float(np.asarray(rs[key]).ravel()[0])
+                        if not (va == vs or abs(va - vs) <= 1e-11 * max(abs(va), abs(vs))):
+                            ck.violation({"fn": "quick_dual_body_tidal_dissipation", "clause": "inplace_reuse", "what": key},
+                                         "dual-body call %d with the same arrays updated in place: element %d %s = %r, scalar calculation gives %r: %s" % (step + 1, idx, key, va, vs, det), det)
+                            break
+            n_arr *= 1.15
+            e_arr *= 0.9
+            s_arr *= 1.07
     ck.notes["closed_loop_worst_energy_residual"] = worst_e
     ck.notes["closed_loop_worst_angmom_residual"] = worst_l
 
